@@ -1,7 +1,7 @@
 CONSTANTS MaxInt = 5
  MinInt <- MinIntModel
  Slots = {1, 2, 3}
- MaxDepth = 60
+ MaxDepth = 8
  WithApi = FALSE
  EmitPaths = TRUE
  WithFaults = FALSE
